@@ -274,8 +274,8 @@ class DB:
         well.
         """
         res = DB()
-        res.db = self.db.copy()
-        res.rdb = self.rdb.copy()
+        res.db = {pkg: tags.copy() for pkg, tags in self.db.items()}
+        res.rdb = {tag: pkgs.copy() for tag, pkgs in self.rdb.items()}
         return res
 
     def reverse_copy(self):
@@ -285,8 +285,8 @@ class DB:
         this one.
         """
         res = DB()
-        res.db = self.rdb.copy()
-        res.rdb = self.db.copy()
+        res.db = {tag: pkgs.copy() for tag, pkgs in self.rdb.items()}
+        res.rdb = {pkg: tags.copy() for pkg, tags in self.db.items()}
         return res
 
     reverseCopy = function_deprecated_by(reverse_copy)
@@ -317,7 +317,7 @@ class DB:
         res = DB()
         db = {}
         for pkg in package_iter:
-            db[pkg] = self.db[pkg]
+            db[pkg] = self.db[pkg].copy()
         res.db = db
         res.rdb = reverse(db)
         return res
